@@ -25,7 +25,7 @@ CLAIMS = {
          "consumes handles and that one does so unconditionally, failure -> INVALID mapping, operand validation in op1/op2/op3, no "
          "exported function returns one of its argument handles except the reference-taking *_ref functions, parallel C arrays are "
          "zipped before filtering; the bdd/bcdd/zbdd variants of each exported function are the same program up to the kind's names "
-         "(sibling comparison of normalised HIR, 2 reviewed deviations). "
+         "(sibling comparison of normalised HIR, 2 reviewed deviations). Pointer operations lie on the non-null edge of null tests (E-FFI.null). "
          "Call-sequence equivalence with the Rust API is not decided.",
          "HIR/MIR who-may-call and typestate rules", "3.7, 4 C19"),
  "C16": ("E-VNM(.lockstep,.clone) + E-EVENT + E-UNITS: the name map's push/insert, displace/remove and free discipline on every path; the "
@@ -35,7 +35,7 @@ CLAIMS = {
          "MIR dominance / provenance rules", "3.8, 3.5, 4 C16"),
  "C20": ("E-CFG: the configuration corners are type-checked under the fact extractor (quick: default + 3 extreme corners, "
          "thorough: all 8) and E-LIN/E-WRAP (+E-CACHE/E-EVENT where a cache exists) are re-run on each; sibling agreement of the two "
-         "node types (ARITY constant, method bodies) and NoApplyCache = constant miss. The worker-count dependent reordering path: E-PERM (+ .blocked, .acquire, .relabel); the two managers' VarLevelMap copies are the same program (E-VLM); MT function types forward to the sequential ones (E-WRAP.delegate). Observational equivalence of results is not "
+         "node types (ARITY constant, method bodies) and NoApplyCache = constant miss. The worker-count dependent reordering path: E-PERM (+ .blocked, .acquire, .relabel); the two managers' VarLevelMap copies are the same program (E-VLM); MT function types forward to the sequential ones (E-WRAP.delegate). The pointer-based manager (never built by the default test suite): E-PTR.tagbits, E-CANON.ptrsplit, E-LIN.rcguard / .rcconst / .mint. Observational equivalence of results is not "
          "decided.", "type-checking the feature matrix + sibling comparison of HIR", "3.9, 4 C20"),
  "C17": ("E-RAW on linear_hashtbl::raw: inventory of writers of the free-slot counter, +1/-1 pairing with status stores, "
          "provenance of retain's successor-is-free flag, Drain's full sweep, counter assignment when the slot array is replaced, "
@@ -66,7 +66,7 @@ CLAIMS = {
          "shared store by move only; level_swap releases a node's edges before unlinking children; frozen caller sets of the "
          "node-removal primitives and their gates; Manager::gc sweeps all inner-node levels before the terminal table; the apply cache (uncounted edges) stays locked and empty "
          "between pre_gc and post_gc; node-count bookkeeping (failed allocation undone, adjusted delta stored) and the terminal "
-         "free list written back after a sweep; every removal of a node from a unique table reaches the release of the removed edge on all non-unwind paths (E-LIN.forget); every function that builds an owned edge out of a raw id/pointer is inventoried and the copying ones increment a count on every path first (E-LIN.mint). Free thresholds of reference counts are the 11 reviewed comparisons (E-LIN.rcconst); session-end hand-over and the allocation mark (E-FREELIST.handover/.mark); level_swap removes dead old children exactly once (E-TABLE.swap). Necessary conditions of exact reference counts: no owned edge is dropped by the "
+         "free list written back after a sweep; every removal of a node from a unique table reaches the release of the removed edge on all non-unwind paths (E-LIN.forget); every function that builds an owned edge out of a raw id/pointer is inventoried and the copying ones increment a count on every path first (E-LIN.mint). Free thresholds of reference counts are the 11 reviewed comparisons (E-LIN.rcconst); session-end hand-over and the allocation mark (E-FREELIST.handover/.mark); level_swap removes dead old children exactly once (E-TABLE.swap). try_remove_node reaches the table removal only with previous count 2, prepared manager and re-read count 1 (E-LIN.rcguard); terminal / inner-node discrimination without off-by-one or flipped tests in both managers (E-CANON.idsplit/.ptrsplit); tag-bit arithmetic of pointer-based edges (E-PTR.tagbits); return_preallocated links the rest of a chunk correctly (E-FREELIST.link). Necessary conditions of exact reference counts: no owned edge is dropped by the "
          "compiler instead of being released through the manager, on any path incl. every `?`/out-of-memory path; no slot is on two "
          "free lists. Exactness over histories is not decided.",
          "MIR drop-terminator typestate lint (rustc_private driver) + move-only dataflow + who-may-call", "3.1, 3.8, 3.5, 4 C05"),
@@ -91,7 +91,7 @@ CLAIMS = {
          "(terminal base cases, count(node) = (count(c0)+count(c1)) >> 1 over the cofactors seen through the complement tag, "
          "memoisation under the looked-up key, distinct keys for an edge and its complement); E-CARRY: no computed carry of "
          "Natural's multi-digit addition is overwritten unread; subtractions involving sat_count_edge's `vars` are guarded and no "
-         "number type uses checked_shl as an overflow test; SatCountCache::map is touched by its owner and sat_count_edge::inner only. Natural's unnormalised digit view is read only by the two reviewed functions (E-NUM.rawview); the substrate rules (live nodes, fresh caches, var/level maps) apply. "
+         "number type uses checked_shl as an overflow test; SatCountCache::map is touched by its owner and sat_count_edge::inner only. Natural's unnormalised digit view is read only by the two reviewed functions (E-NUM.rawview); the scale-down / scale-up of sat_count_edge are taken under one condition (E-SAT.scale.pair); the substrate rules (live nodes, fresh caches, var/level maps) apply. "
          "The exactness of the number types beyond that is not decided.",
          "HIR interpretation with symbolic numbers + MIR path enumeration / liveness", "3.5, 3.11, 4 C12"),
  "C07": ("E-LOCK + E-FREELIST + E-CACHE.dm + E-EVENT + E-PERM.blocked + E-DBG (+E-LIN/E-WRAP on the parallel code): lock-order acyclicity over all lock classes, "
